@@ -300,12 +300,19 @@ class ActionTextGenWalker(Walker):
         self.buf(')')
         
     def accept_ACT_SGN(self, inst):
+        v_val = one(inst).V_VAL[630]()
+        if v_val:
+            self.buf('send ')
+            
         self.accept(one(inst).SPR_PS[663].SPR_PEP[4503]())
         self.accept(one(inst).SPR_RS[660].SPR_REP[4502]())
         self.buf('(')
         first_filter = lambda sel: one(sel).V_PAR[816, 'succeeds']() is None
         self.accept(any(inst).V_PAR[662](first_filter))
         self.buf(')')
+        if v_val:
+            self.buf(' to ')
+            self.accept(v_val)
         
     def accept_ACT_TFM(self, inst):
         o_tfr = one(inst).O_TFR[673]()
